@@ -1,9 +1,131 @@
 import Driver.Util
+import Lattigo.Model.Galois
+import Lattigo.Model.InnerSum
 
+/-
+  Line-protocol handler for property C11.  Ops (see harness/c11.go):
+
+    galel N k | galels N ks | modinv N g | dlog N g | ordertwo rt N | nttindex n N g
+    adv-innersum N batch n | adv-replicate N batch n
+    adv-innersum-bgv N maxSlots batch n | adv-replicate-bgv N ringN batch n
+    adv-trace rt logNRing logN                                     (lists printed sorted)
+    pts|replicate|innerfunction[-reqs] lay N t batch n vec         -> "reqs vec" (or "reqs")
+    innersum-bgv|innersum-ckks[-reqs] lay N t slots batch n vec
+    trace[-reqs] lay rt logNRing t logN vec
+    rotate[-reqs] lay N t k vec | conj[-reqs] lay rt N t vec | rothoisted lay N t ks vec
+-/
 namespace Driver.C11
-open Driver
+open Driver Lattigo.Model.Galois Lattigo.Model.InnerSum
 
-/-- stub: replaced by the property's real handler -/
-def handle (_toks : List String) : String := badOp
+def sortNat (l : List Nat) : List Nat := l.mergeSort (fun a b => decide (a ≤ b))
+
+def showOptSorted : Option (List Nat) → String
+  | some l => showVec (sortNat l)
+  | none => "panic"
+
+def parseLay? : String → Option Layout
+  | "bgv" => some .bgv
+  | "ckks" => some .ckks
+  | "single" => some .single
+  | _ => none
+
+def parseRt? : String → Option RingType
+  | "std" => some .standard
+  | "ci" => some .conjugateInvariant
+  | _ => none
+
+def showRes (valueTie : Bool) : Res (List Int) → String
+  | .err => "err"
+  | .panic => "panic"
+  | .ok v r => if valueTie then showVec r ++ " " ++ showIVec v else showVec r
+
+/-- strip a `-reqs` suffix -/
+def splitReqs (op : String) : String × Bool :=
+  if op.endsWith "-reqs" then ((op.dropEnd 5).toString, false) else (op, true)
+
+def zerosLike (v : List Int) : List Int := v.map (fun _ => 0)
+
+def handleEval (op : String) (valueTie : Bool) (args : List String) : Option String := do
+  match op, args with
+  | "pts", [lay, N, t, b, n, vec] | "replicate", [lay, N, t, b, n, vec]
+  | "innerfunction", [lay, N, t, b, n, vec] =>
+    let lay ← parseLay? lay; let N ← parseNat? N; let t ← parseNat? t
+    let b ← parseInt? b; let n ← parseInt? n; let v ← parseIVec? vec
+    let S := slotOps lay N t
+    let z := zerosLike v
+    let r := match op with
+      | "pts" => partialTracesSum S N v z z b n
+      | "replicate" => replicate S N v z z b n
+      | _ => innerFunction S S.add N v z z b n
+    pure (showRes valueTie r)
+  | "innersum-bgv", [lay, N, t, slots, b, n, vec] | "innersum-ckks", [lay, N, t, slots, b, n, vec] =>
+    let lay ← parseLay? lay; let N ← parseNat? N; let t ← parseNat? t; let slots ← parseNat? slots
+    let b ← parseInt? b; let n ← parseInt? n; let v ← parseIVec? vec
+    let S := slotOps lay N t
+    let z := zerosLike v
+    let r := if op == "innersum-bgv" then innerSumBGV S N slots v z z b n
+             else innerSumCKKS S N slots v z z b n
+    pure (showRes valueTie r)
+  | "trace", [lay, rt, logNRing, t, l, vec] =>
+    let lay ← parseLay? lay; let rt ← parseRt? rt; let logNRing ← parseNat? logNRing
+    let t ← parseNat? t; let l ← parseInt? l; let v ← parseIVec? vec
+    let S := slotOps lay (nthRootOf rt logNRing) t
+    pure (showRes valueTie (trace S rt logNRing v l))
+  | "rotate", [lay, N, t, k, vec] =>
+    let lay ← parseLay? lay; let N ← parseNat? N; let t ← parseNat? t
+    let k ← parseInt? k; let v ← parseIVec? vec
+    pure (showRes valueTie (rotate (slotOps lay N t) N v k))
+  | "conj", [lay, rt, N, t, vec] =>
+    let lay ← parseLay? lay; let rt ← parseRt? rt; let N ← parseNat? N; let t ← parseNat? t
+    let v ← parseIVec? vec
+    pure (showRes valueTie (conjugate (slotOps lay N t) rt N v))
+  | "rothoisted", [lay, N, t, ks, vec] =>
+    let lay ← parseLay? lay; let N ← parseNat? N; let t ← parseNat? t
+    let ks ← parseIVec? ks; let v ← parseIVec? vec
+    let (outs, reqs) := rotateHoisted (slotOps lay N t) N v ks
+    pure (" ".intercalate (showVec reqs :: outs.map showIVec))
+  | _, _ => none
+
+def handle (toks : List String) : String :=
+  let r : Option String := do
+    match toks with
+    | ["galel", N, k] =>
+      let N ← parseNat? N; let k ← parseInt? k
+      pure (toString (galEl N k))
+    | ["galels", N, ks] =>
+      let N ← parseNat? N; let ks ← parseIVec? ks
+      pure (showVec (galEls N ks))
+    | ["modinv", N, g] =>
+      let N ← parseNat? N; let g ← parseNat? g
+      pure (toString (modInv N g))
+    | ["dlog", N, g] =>
+      let N ← parseNat? N; let g ← parseNat? g
+      pure (match solveDiscreteLog N g with | some k => toString k | none => "diverges")
+    | ["ordertwo", rt, N] =>
+      let rt ← parseRt? rt; let N ← parseNat? N
+      pure (match orderTwo rt N with | some g => toString g | none => "panic")
+    | ["nttindex", n, N, g] =>
+      let n ← parseNat? n; let N ← parseNat? N; let g ← parseNat? g
+      pure (match automorphismNTTIndex n N g with | some l => showVec l | none => "err")
+    | ["adv-innersum", N, b, n] =>
+      let N ← parseNat? N; let b ← parseInt? b; let n ← parseInt? n
+      pure (showOptSorted (galoisElementsForInnerSum N b n))
+    | ["adv-replicate", N, b, n] =>
+      let N ← parseNat? N; let b ← parseInt? b; let n ← parseInt? n
+      pure (showOptSorted (galoisElementsForReplicate N b n))
+    | ["adv-innersum-bgv", N, ms, b, n] =>
+      let N ← parseNat? N; let ms ← parseNat? ms; let b ← parseInt? b; let n ← parseInt? n
+      pure (showOptSorted (galoisElementsForInnerSumBGV N ms b n))
+    | ["adv-replicate-bgv", N, rn, b, n] =>
+      let N ← parseNat? N; let rn ← parseNat? rn; let b ← parseInt? b; let n ← parseInt? n
+      pure (showOptSorted (galoisElementsForReplicateBGV N rn b n))
+    | ["adv-trace", rt, logNRing, l] =>
+      let rt ← parseRt? rt; let logNRing ← parseNat? logNRing; let l ← parseInt? l
+      pure (showOptSorted (galoisElementsForTrace rt logNRing l))
+    | op :: args =>
+      let (op, valueTie) := splitReqs op
+      handleEval op valueTie args
+    | _ => none
+  r.getD badOp
 
 end Driver.C11
